@@ -3,6 +3,7 @@ package sim
 import (
 	"fmt"
 	"os"
+	"regexp"
 	"sort"
 	"strings"
 	"sync"
@@ -379,5 +380,17 @@ func compareDumps(add func(int, string, string, ...any), cycle int, what string,
 		add(cycle, "c13-restore-differs-whole-gpu-counters", "after %s only the whole-GPU idle/releasing counters (and 'shared GPU releasing' markers) differ from the reference state: %s", what, FirstDiff(ref[1], now[1]))
 		return
 	}
+	// listed known finding: the only difference is the GPU-group list written on the task object of a victim that
+	// is shown as releasing on the node it was moved to (IsVirtualStatus) - the node's own pod table entry is right
+	if maskVirtualGroups(ref[2]) == maskVirtualGroups(now[2]) {
+		add(cycle, "c13-restore-differs-gpu-groups-on-task-of-moved-victim", "after %s only the GPU groups written on the task object of a moved victim (virtual status) differ: %s", what, FirstDiff(ref[2], now[2]))
+		return
+	}
 	add(cycle, "c13-restore-differs", "after %s the session is not as it was: %s", what, FirstDiff(ref[2], now[2]))
+}
+
+var virtualGroupsRe = regexp.MustCompile(`(:Releasing@[^\s\[]*)\[[^\]]*\]( virtual=true)`)
+
+func maskVirtualGroups(dump string) string {
+	return virtualGroupsRe.ReplaceAllString(dump, "$1[*]$2")
 }
